@@ -36,6 +36,7 @@ type Config struct {
 	ReplayTrace string
 	SolverLog string
 	ConcreteMode bool
+	NoVectors bool
 }
 
 type Engine struct {
@@ -57,6 +58,7 @@ type Engine struct {
 	srcHash sync.Map
 	finfo   sync.Map
 	tcache  sync.Map
+	pendingVec int
 }
 
 type HarnessResult struct {
@@ -78,6 +80,16 @@ type HarnessResult struct {
 	Truncated  bool
 	MaxPreempt int
 	Yields     int
+	Vectors    []Vector
+}
+
+// Vector is a concrete input assignment that drives one explored path (for translator validation).
+type Vector struct {
+	Harness string            `json:"harness"`
+	Model   map[string]string `json:"model"`
+	Covers  []string          `json:"covers"`
+	Sched   bool              `json:"schedule_dependent"`
+	Trace   string            `json:"trace"`
 }
 
 type PathSample struct {
@@ -176,6 +188,7 @@ func (e *Engine) Run(fn *ssa.Function) *HarnessResult {
 	e.work = [][]Dec{nil}
 	e.active = 0
 	e.npaths = 0
+	e.pendingVec = 0
 	if e.Cfg.ReplayTrace != "" {
 		e.work = [][]Dec{parseTrace(e.Cfg.ReplayTrace)}
 	}
@@ -255,7 +268,34 @@ func parseTrace(s string) []Dec {
 	return out
 }
 
+// wantVector: keep a few vectors per harness, preferring distinct cover sets.
+func (e *Engine) wantVector(ps *pathState) bool {
+	if e.Cfg.ConcreteMode || e.Cfg.NoVectors {
+		return false
+	}
+	e.mu.Lock()
+	defer e.mu.Unlock()
+	if len(e.res.Vectors)+e.pendingVec >= 4 {
+		return false
+	}
+	key := strings.Join(sortedKeys(ps.covers), ",")
+	for _, v := range e.res.Vectors {
+		if strings.Join(v.Covers, ",") == key && len(e.res.Vectors) >= 2 {
+			return false
+		}
+	}
+	e.pendingVec++
+	ps.wantedVec = true
+	return true
+}
+
 func (e *Engine) merge(res *HarnessResult, ps *pathState) {
+	if ps.vector != nil {
+		res.Vectors = append(res.Vectors, *ps.vector)
+	}
+	if ps.wantedVec {
+		e.pendingVec--
+	}
 	res.Paths[ps.out.String()]++
 	if ps.out != outOK && ps.out != outInfeasible {
 		m := ps.out.String() + ": " + ps.msg
@@ -404,6 +444,22 @@ func (wk *worker) runPath(fn *ssa.Function, prefix []Dec) (ps *pathState) {
 	}
 	if ps.out == outRunning {
 		ps.out = outOK
+	}
+	if ps.out == outOK && !ps.crashed && len(ps.viols) == 0 && e.wantVector(ps) {
+		// a model of the path condition = concrete inputs that drive exactly this path
+		if wk.sol.Check() == smt.Sat {
+			m, _, _ := i.model()
+			ok := true
+			for _, v := range m {
+				if v == "?" {
+					ok = false
+				}
+			}
+			if ok {
+				ps.vector = &Vector{Harness: fn.Name(), Model: m, Covers: sortedKeys(ps.covers), Trace: decString(ps.trace),
+					Sched: strings.Contains(" "+decString(ps.trace), " c")}
+			}
+		}
 	}
 	if ps.out == outEngineError || (ps.out == outPanic && ps.hostStack != "" && e.Cfg.Verbose) {
 		fmt.Fprintf(os.Stderr, "[%s] %s: %s\ntrace: %s\n%s\n", fn.Name(), ps.out, ps.msg, decString(ps.trace), ps.hostStack)
